@@ -127,6 +127,20 @@ def loadPredicates (g : Grid) (recs : List Rec) (o : ObsLoad) (on : Net) : Optio
       (if r.seg.total ≠ 0 then r.seg.total else ((s.2.2.2.length - 1 : Nat) : Rat) * r.seg.cpc) == s.2.1)) with
   | some s => some s!"PROPFAIL C15 load_cost key={s.1.1},{s.1.2} cost={showRat s.2.1}"
   | none =>
+  -- merge: the stored cells of an edge are the cells of its points, consecutive points falling in one cell
+  -- merged (`C15_load_merge`: that list is `r.seg.cells` of its record; `C15_load_clip`: a stored edge is the
+  -- segment of one of its records). Which of several records with one node pair is stored stays with the model.
+  match o.segs.find? (fun s => (recs.any fun r => r.key == s.1) && !(recs.any fun r => r.key == s.1 && r.seg.cells == s.2.2.2)) with
+  | some s =>
+    let want := (recs.filter fun r => r.key == s.1).map fun r => r.seg.cells.map showCell
+    some s!"PROPFAIL C15 load_merge key={s.1.1},{s.1.2} stored cells={s.2.2.2.map showCell} are not the merged cells of the edge's points={want}"
+  | none =>
+  -- teleporting chooses "by the edge probabilities": the stored probability of an edge is the stated one
+  -- (`C15_load_clip`, last clause: stored edge = (key, segment) of a record, probability included)
+  match o.segs.find? (fun s => (recs.any fun r => r.key == s.1) && !(recs.any fun r => r.key == s.1 && r.seg.prob == s.2.2.1)) with
+  | some s =>
+    some s!"PROPFAIL C15 teleport_probability key={s.1.1},{s.1.2} stored probability={showRat s.2.2.1} stated={(recs.filter fun r => r.key == s.1).map fun r => showRat r.seg.prob}"
+  | none =>
   -- clipping: an edge inside the study area must be kept
   match recs.find? (fun r => r.inside g && !(o.segs.any fun s => s.1 == r.key)) with
   | some r => some s!"PROPFAIL C15 load_clip dropped-edge-inside key={r.key.1},{r.key.2}"
@@ -146,6 +160,10 @@ def loadPredicates (g : Grid) (recs : List Rec) (o : ObsLoad) (on : Net) : Optio
     | none => none
   | [] => none
 
+/-- Model comparison of the structure, after the predicates: what is left here is not fixed by the property -
+    the order in which edges and neighbours are enumerated (map order), which of several records with the same
+    node pair is stored, the per-node probability table (an internal table; no theorem relates it to the edge
+    probabilities) and `collect_statistics`. -/
 def compareLoad (m : Net) (o : ObsLoad) : String :=
   if canonNodes o.nodes != canonNodes m.nodePlaces then
     s!"MISMATCH net.load nodes model={(canonNodes m.nodePlaces).map fun p => (p.1, p.2.1, p.2.2)}"
@@ -179,7 +197,17 @@ def handleLoad (_st : State) (inp obs : List String) : State × String :=
       | [o] =>
         match model with
         | .error k => (st0, if o = errTok k then "ok" else s!"PROPFAIL C15 load_rejects observed={o} documented={errTok k}")
-        | .ok m => (st0, s!"MISMATCH net.load model=ok segs={m.segs.length}")
+        | .ok m =>
+          -- a well-formed text rejected. If one of its edges has both end nodes inside the study area, "keeps
+          -- exactly the edges whose two end nodes lie inside" fails for it (`C15_load_clip_inside_kept` with
+          -- `C15_load_clip`: the pair is stored); otherwise (only F17-region edges) the model comparison remains
+          let recs : List Rec := match (do
+              let (h, data) ← splitHeader (getlines '\n' chars)
+              parseRecords g h.hasCost h.hasProb data : Except ErrKind (List Rec)) with
+            | .ok rs => rs | .error _ => []
+          match recs.find? (fun r => r.inside g) with
+          | some r => (st0, s!"PROPFAIL C15 load_clip dropped-edge-inside key={r.key.1},{r.key.2} well-formed network rejected observed={o}")
+          | none => (st0, s!"MISMATCH net.load model=ok segs={m.segs.length}")
       | "ok" :: rest =>
         match obsLoad.run rest with
         | some (o, []) =>
@@ -240,11 +268,16 @@ def checkWalk (st : State) (cmd : String) (start : Cell) (d : Rat) (jump : Bool)
       else none
     | .err e =>
       if !hasNode && e != .invalid_argument then some s!"PROPFAIL C15 start_needs_node wrong-error={errTok e}"
+      -- a trip from a cell with a node "ends on a cell of the loaded network": on the observed network no choice
+      -- of neighbours leads to an exception (`C15_cost`: never an exception for d >= 0)
+      else if hasNode && d ≥ 0 && !st.obs.walkGHas false start d jump o then
+        some s!"PROPFAIL C15 stays_on_network trip from a node cell with distance >= 0 threw {errTok e} allowed={showOutcomes (st.obs.walkRelaxed start d jump)}"
       else none
     | _ => none
   match pred with
   | some m => m
   | none =>
+    -- left to the model: the observed structure differing from the model's (reported on the load line), d < 0
     if st.model.walkGHas true start d jump o then "ok"
     else s!"MISMATCH {cmd} model={showOutcomes (st.model.walk start d jump)}"
 
@@ -257,14 +290,23 @@ def checkTeleport (st : State) (cmd : String) (start : Cell) (steps : Nat) (o : 
       else if !isNodeCell st.obs x then some s!"PROPFAIL C15 teleport_adjacent result-not-a-node result={showCell x}"
       else if steps = 1 && !teleportAdjacent st.obs start x then
         some s!"PROPFAIL C15 teleport_adjacent result={showCell x}"
+      -- "chosen by the edge probabilities": an edge of probability 0 is not chosen while the node has an edge of
+      -- positive probability (`teleportTargets`; the law of the draw itself is trusted). Which cell of a node id
+      -- that sits in two places is returned stays with the model.
+      else if steps = 1 && !((st.obs.nodesAt start).any fun a => (st.obs.nodesAt x).any fun m => (st.obs.teleportTargets a).contains m) then
+        some s!"PROPFAIL C15 teleport_probability result={showCell x} is adjacent only over an edge of probability 0"
       else none
     | .err e =>
       if !hasNode && e != .invalid_argument then some s!"PROPFAIL C15 start_needs_node wrong-error={errTok e}"
+      -- a start cell with a node: teleporting "ends at a node adjacent to the start node"
+      else if hasNode && !(st.obs.teleport start steps).contains o then
+        some s!"PROPFAIL C15 teleport_adjacent teleport from a node cell threw {errTok e}"
       else none
     | _ => none
   match pred with
   | some m => m
   | none =>
+    -- left to the model: several steps (the property describes one), the cell of a node id in two places
     let outs := st.model.teleport start steps
     if outs.contains o then "ok" else s!"MISMATCH {cmd} model={showOutcomes outs}"
 
@@ -280,6 +322,8 @@ def handle (st : State) (cmd : String) (inp obs : List String) : State × String
       let c := g.xyToRowCol x y
       let b (v : Bool) : String := if v then "1" else "0"
       let m := [toString c.1, toString c.2, b (g.xyOut x y), b (g.cellOut c) ++ b (g.cellOut c)]
+      -- helper queries: the property speaks about the loaded edges; the cell of a coordinate and the box tests enter
+      -- it through the load line only (clipping, cells of the points), where they are judged
       (st, if obs = m then "ok" else s!"MISMATCH net.xy model={m}")
     | _, _ => (st, "BADLINE")
   | "net.has", [r, c] =>
@@ -292,6 +336,7 @@ def handle (st : State) (cmd : String) (inp obs : List String) : State × String
       match obs with
       | [oh, _, oe] =>
         if oh != b (st.obs.hasNodeAt (r, c)) || oe != oh then (st, s!"PROPFAIL C15 start_needs_node has_node/eligible={oh}/{oe}")
+        -- left to the model: the NUMBER of nodes in the cell
         else (st, if obs = m then "ok" else s!"MISMATCH net.has model={m}")
       | _ => (st, "BADLINE")
     | _, _ => (st, "BADLINE")
@@ -299,6 +344,7 @@ def handle (st : State) (cmd : String) (inp obs : List String) : State × String
     match parseInt? i, parseOutcome obs with
     | some i, some o =>
       let m : Outcome := match st.model.nodeCell i with | some c => .at c | none => .err .invalid_argument
+      -- helper query (which of two places of one node id, exception for an unknown id): not stated by the property
       (st, if o = m then "ok" else s!"MISMATCH net.nodecell model={showOutcome m}")
     | _, _ => (st, "BADLINE")
   | "net.segview", [a, b] =>
@@ -307,7 +353,11 @@ def handle (st : State) (cmd : String) (inp obs : List String) : State × String
       let m := st.model.getSegment a b
       match obs with
       | ["err:invalid_argument"] =>
-        (st, if m.isNone then "ok" else "MISMATCH net.segview model=ok")
+        -- "every edge traversable in both directions": a stored edge (a,b) or (b,a) must be found from a to b
+        -- (`C15_load_symmetric`: e.1 = (a,b) -> neighbours both ways, neighbour <-> get_segment succeeds)
+        if (st.obs.findSeg (a, b)).isSome || (st.obs.findSeg (b, a)).isSome then
+          (st, s!"PROPFAIL C15 load_symmetric edge between {a} and {b} is stored but get_segment({a},{b}) is rejected")
+        else (st, if m.isNone then "ok" else "MISMATCH net.segview model=ok")
       | "ok" :: rest =>
         let p : P (Rat × List Cell × Cell × Cell) := do
           let cost ← rat; let k ← nat; let cells ← rep k cell
@@ -323,6 +373,7 @@ def handle (st : State) (cmd : String) (inp obs : List String) : State × String
                         (bwd.any fun s => s.cells.reverse == cells && s.cost == cost)
           if !okView || cells.head? != some f || cells.getLast? != some bk then
             (st, s!"PROPFAIL C15 load_symmetric view {a},{b} is not the stored segment or its reverse")
+          -- left to the model: which of the two is seen when (a,b) and (b,a) are both stored
           else match m with
             | some v =>
               (st, if v.cells == cells && v.cost == cost && v.front == f && v.back == bk then "ok"
@@ -344,6 +395,7 @@ def handle (st : State) (cmd : String) (inp obs : List String) : State × String
           (st, s!"PROPFAIL C15 prefers_unvisited visited-chosen result={o} unvisited={nb.filter fun m => !ign.contains m}")
         else
           let m := st.model.nextNodes true node ign
+          -- unreachable on an agreed structure: the predicates above are the definition of the allowed set
           (st, if m.contains o then "ok" else s!"MISMATCH net.next model={m}")
       | none => (st, "BADLINE")
     | _, _, _, _ => (st, "BADLINE")
